@@ -64,7 +64,7 @@ class Module:
         if os.environ.get("VERIF_NO_NORMALIZE") != "1" and norm_level > 0:
             try:
                 from .normalize import normalize_tree
-                self.normalized = normalize_tree(self.tree, rel, temporaries=norm_level >= 2)
+                self.normalized = normalize_tree(self.tree, rel, temporaries=norm_level >= 2, root=repo.root)
             except Exception:
                 # a defect of the normaliser must never change a verdict: fall back to the tree as written
                 import warnings
